@@ -194,6 +194,13 @@ pub enum QOp {
     /// the callback returns the shim's own error here, as `?` would: whatever writers are still held go
     /// out of scope (their destructors may write)
     Bail(u64),
+    /// `write_col` whose result is recorded but NOT propagated: a backend that recovers from a
+    /// refused value (writes a substitute, reports the error to the client, ...) and goes on
+    TryCol(Cell),
+    /// `write_row`, result recorded, program goes on
+    TryRow(Vec<Cell>, RowForm),
+    /// `end_row`, result recorded, program goes on
+    TryEndRow,
 }
 impl QOp {
     /// value-erased shape name
@@ -214,6 +221,9 @@ impl QOp {
             QOp::DropResult => "drop_result_writer",
             QOp::Bail(_) => "return_err",
             QOp::Params(_) => "params",
+            QOp::TryCol(_) => "try_col",
+            QOp::TryRow(..) => "try_write_row",
+            QOp::TryEndRow => "try_end_row",
         }
     }
 }
@@ -552,6 +562,38 @@ impl ScriptShim {
                     self.res(i, name, &Ok(()));
                 }
                 QOp::Params(_) => {}
+                QOp::TryCol(cell) => {
+                    let r = match rw.as_mut() {
+                        Some(r) => r,
+                        None => return Err(inapplicable(name)),
+                    };
+                    macro_rules! f {
+                        ($e:expr) => {
+                            r.write_col($e)
+                        };
+                    }
+                    let res = with_cell!(cell, f);
+                    self.res(i, name, &res);
+                }
+                QOp::TryRow(cells, form) => {
+                    let r = match rw.as_mut() {
+                        Some(r) => r,
+                        None => return Err(inapplicable(name)),
+                    };
+                    let res = match form {
+                        RowForm::Owned => r.write_row(cells.clone()),
+                        RowForm::Borrowed => r.write_row(cells),
+                    };
+                    self.res(i, name, &res);
+                }
+                QOp::TryEndRow => {
+                    let r = match rw.as_mut() {
+                        Some(r) => r,
+                        None => return Err(inapplicable(name)),
+                    };
+                    let res = r.end_row();
+                    self.res(i, name, &res);
+                }
                 QOp::Bail(t) => {
                     self.res(i, name, &Ok(()));
                     drop(rw.take());
